@@ -12,8 +12,8 @@
 (* ====================================================================== *)
 
 Require Import Arith List Bool QArith Qcanon.
-From TK Require Import Mat_Sums Mat_Core Mat_Qc Mat_EigSelect Pencil_Model Pencil_Spec
-     Pencil_Proof_Sums Pencil_Proof Pencil_Proof_Rot Pencil_Proof_Qc.
+From TK Require Import Mat_Sums Mat_Core Mat_Qc Mat_EigSelect Spectral_KyFan Pencil_Model Pencil_Spec
+     Pencil_Proof_Sums Pencil_Proof Pencil_Proof_Rot Pencil_Proof_KyFan Pencil_Proof_Qc.
 Import ListNotations.
 Local Open Scope F_scope.
 
@@ -241,6 +241,42 @@ Proof.
   exact (conj (conj eW_ok (conj (le_S 1 1 (le_n 1)) (conj e_contract (ex_intro _ _ eq_refl))))
               (conj (conj (Qc_of_nat_neq0 4 (Nat.neq_succ_0 3)) (conj lW_ok (conj (le_n 1) e_contract_lltsa)))
                     e_contract_lpp)).
+Qed.
+
+(* ---------- 4b. "the target_dimension SMALLEST eigenvalues": generalised Ky Fan ---------- *)
+(* If the solver's answer is a full decomposition of what it reads (A V = B V diag(lam),
+   V^T B V = I, V (V^T B) = I, lam ascending — validated at run time by the G stream), the
+   selected columns P cost exactly lam_0 + ... + lam_{d-1} and every B-orthonormal d-frame Q costs
+   at least that:  tr(P^T A P) <= tr(Q^T A Q).  Every ordered field, every D, d. *)
+Theorem selected_columns_optimal :
+  forall (F : Type) (Fo : FieldOps F) (Ff : IsField F) (Fle : OrderedField F)
+         D d (A B : mat F) (p : pencil F) (V P Q : mat F) lam,
+    solver_sees D A B p -> (d <= D)%nat ->
+    full_contract D (p_lhs (seen p)) (p_rhs (seen p)) V lam -> ascending D lam ->
+    select_cols D d V = Ok P ->
+    meq d d (mmul D (mtrans Q) (mmul D B Q)) mI ->
+    quad D d A P = sumn d lam /\ fle (quad D d A P) (quad D d A Q).
+Proof. exact (@optimal_via_seen). Qed.
+Print Assumptions selected_columns_optimal.
+
+Theorem generalised_ky_fan :
+  forall (F : Type) (Fo : FieldOps F) (Ff : IsField F) (Fle : OrderedField F)
+         D d (A B V Q : mat F) lam,
+    (d <= D)%nat -> full_contract D A B V lam -> ascending D lam ->
+    meq d d (mmul D (mtrans Q) (mmul D B Q)) mI ->
+    fle (sumn d lam) (quad D d A Q).
+Proof. exact (@gen_ky_fan_min). Qed.
+Print Assumptions generalised_ky_fan.
+
+Example optimal_nonvacuous :
+  solver_sees 2 (npe_lhs 2 eX eW) (npe_rhs 2 eX) (npe_repaired eX 2 eW) /\ (1 <= 2)%nat /\
+  full_contract 2 (p_lhs (seen (npe_repaired eX 2 eW))) (p_rhs (seen (npe_repaired eX 2 eW))) eV elam /\
+  ascending 2 elam /\ (exists P, select_cols 2 1 eV = Ok P) /\
+  meq 1 1 (mmul 2 (mtrans eQ) (mmul 2 (npe_rhs 2 eX) eQ)) mI.
+Proof.
+  exact (conj (npe_seen_gen 2 2 eX eW eW_ok)
+        (conj (le_S 1 1 (le_n 1))
+        (conj e_full_contract (conj e_ascending (conj (ex_intro _ _ eq_refl) eQ_orthonormal))))).
 Qed.
 
 (* per-column sign is free, and is the only freedom inside a one-dimensional eigenspace *)
